@@ -178,8 +178,11 @@ CLAIMED["C06"] = dict(
          "loss/dup/reorder) plus ARBITRARY FORWARD-TSN chunks, every delivery is (stream, ppid, data) of a sent "
          "message; (2) _maybe_abandon abandons whole messages: back to the B fragment, forward to the E fragment, "
          "including fragments not yet sent; (3) in every reachable sender state _transmit never hands an abandoned "
-         "chunk to the network; (4) abandonment preserves the sender's no-deadlock invariant. PARTIAL: "
-         "non-interference between channels and recovery after healing are end-to-end statements, observed on the "
+         "chunk to the network; (4) abandonment preserves the sender's no-deadlock invariant; (5) at the receiver a "
+         "FORWARD-TSN leaves every stream it does not name alone except for pruning chunks at or below its own "
+         "cumulative TSN (sequence counter unchanged, nothing delivered); with C01's at-most-once and ordered-prefix "
+         "theorems (which hold for any mix of channels) deliveries on PR channels are duplicate-free and in order. "
+         "PARTIAL: end-to-end non-interference and recovery after healing are statements over two endpoints, observed on the "
          "two-endpoint simulator (mixed reliable / PR channels, faults, heal, probe message per channel), not "
          "proved; six genuine stall/loss defects found that way are repaired in /repo.",
     design_ref="5 / C06",
